@@ -298,6 +298,28 @@ E2E_DRIVERS = [
 ]
 
 
+def _call_table_diff(calls):
+    """Names the call sites of the current sources that differ from the rows of Model/C24_CallSites.v (the Coq tie
+    C24_call_sites_tied is what fails; this only tells which rows)."""
+    import re
+    import difflib
+    rows = []
+    pat = re.compile(r'^\s*mk_cs "((?:[^"]|"")*)" "((?:[^"]|"")*)" "((?:[^"]|"")*)" "((?:[^"]|"")*)" "((?:[^"]|"")*)" (.*?);?\s*$')
+    for line in open(os.path.join(vlib.COQ, "theories", "Model", "C24_CallSites.v")):
+        m = pat.match(line)
+        if m:
+            rows.append(tuple(x.replace('""', '"') for x in m.groups()[:5]) + (m.group(6),))
+    cur = [(c["File"] + " " + c["Func"], c["Callee"], c["Value"], c["From"], c["To"]) for c in calls]
+    notes = ["call-site inventory: %d calls of scaling helpers in the sources, %d rows in Model/C24_CallSites.v (%s)" % (
+        len(cur), len(rows), ", ".join("%s %d" % (k, sum(1 for r in rows if r[5].startswith(k))) for k in ("QVar", "(QFrame", "QDiff", "QExpr")))]
+    a = ["%s | %s(%s) | %s -> %s" % r[:5] for r in rows]
+    b = ["%s | %s(%s) | %s -> %s" % r for r in cur]
+    for d in difflib.unified_diff(a, b, "model table", "sources", n=0, lineterm=""):
+        if d[:1] in "+-" and d[:3] not in ("+++", "---"):
+            notes.append("CALL SITE CHANGED (%s): %s" % ("in the sources, not in the table" if d[0] == "+" else "in the table, not in the sources", d[1:]))
+    return notes
+
+
 def _match(table, s):
     import re
     for e in table:
@@ -407,6 +429,13 @@ class C24(Prop):
             "pairs; rtmp FromStream on a real stream with a recording gortmplib.Conn: every sample rate RTMP can carry x unit "
             "PTS boundary values, tick advance recovered exactly from consecutive message timestamps); the library range "
             "facts used by the theorem are re-measured over all 2^24 MPEG audio header prefixes (KFact cases). "
+            "Call-site layer: tools/gen/muldiv_calls lists every CALL of a scaling helper (value, source rate, destination rate "
+            "expressions) and Coq demands equality with the table of Model/C24_CallSites.v, which names the quantity each call "
+            "converts (variable, frame position x + i*spf, distance x - y); the real mpegts.FromStream is run end to end on a real "
+            "stream with one track per converting branch (AC-3 at 44.1/48/32 kHz with 1..5 frames per unit, MPEG-4 Audio at "
+            "44.1/48/32/22.05/8 kHz, LATM with/without in-band config, Opus, MPEG-1 Audio, KLV) x unit PTS (0, +-1, around the "
+            "clock rate, 2^31, 2^32, 2^33, 2^40, negative, random) and the raw 33-bit PTS of every PES header is compared with "
+            "the exact conversion of that frame's position (KTs cases, classes `ts-out <track> [multi-frame-unit] [frame>0]`). "
             "Non-trivial = v != 0 (a != 0 for inline sites); distinct = distinct inputs")
     trusted_base = ["Coq 8.16.1 kernel + VM", "translator tools/gen/muldiv (go/ast; fails loudly outside the straight-line "
                     "integer fragment; validated on every run by running the real helpers against the translation)",
@@ -434,7 +463,13 @@ class C24(Prop):
              "`a * b / c` scaling expressions outside the helpers (mvhd duration in playback, MPEG-1 audio frame advance in "
              "the RTMP writer and in the fMP4 recorder) are translated the same way, each with the ranges of its operands, "
              "and proved exact for ALL operands in those ranges; with the Go types' ranges alone the last two are proved to "
-             "overflow (`C24_inline_typeonly_refuted`), so the library range facts they rest on are re-measured on every run.",
+             "overflow (`C24_inline_typeonly_refuted`), so the library range facts they rest on are re-measured on every run. "
+             "What the CALLS convert is covered too: every call of a scaling helper is inventoried from the sources on every run "
+             "and must equal the model's table (`C24_call_sites_tied`), each row naming the converted quantity and proved to "
+             "yield its exact conversion (`C24_call_sites_exact`); for the MPEG-TS output path every written timestamp is proved "
+             "to be the exact conversion of the frame's position, unit timestamp + i frame lengths (`C24_ts_written_exact`), with "
+             "the loop-hoisted and accumulated variants refuted (`C24_hoisted_conversion_refuted`, 44.1 kHz AC-3), and the real "
+             "FromStream is run end to end with several frames per unit on every run.",
         note="Trusted: Coq kernel+VM, the go/ast translators (validated by the correspondence run), 64-bit int, the recognition "
              "of inline sites by shape (x * y / z with a rate-like operand). Sites on "
              "platforms excluded by build tags (rpicamera arm) are translated but cannot be executed here.",
@@ -467,6 +502,21 @@ class C24(Prop):
             if new != old:
                 with vlib.Lock("coqmake"):
                     open(out2, "w").write(new)
+        # call-site inventory (every CALL of a scaling helper, with value / rate expressions), tied to Model/C24_CallSites.v
+        out3 = os.path.join(vlib.COQ, "gen", "C24_Calls.v")
+        notes3 = os.path.join(ctx.workdir, "c24_calls.json")
+        tmp3 = os.path.join(ctx.workdir, "C24_Calls.v")
+        rc3, o3 = vlib.sh(["go", "run", "./muldiv_calls", vlib.REPO, tmp3, notes3], cwd=os.path.join(vlib.VERIF, "tools", "gen"),
+                          env=vlib.go_env(), timeout=300)
+        if os.path.exists(tmp3):
+            new = open(tmp3).read()
+            old = open(out3).read() if os.path.exists(out3) else None
+            if new != old:
+                with vlib.Lock("coqmake"):
+                    open(out3, "w").write(new)
+        self.call_notes = _call_table_diff(json.load(open(notes3))["calls"] if os.path.exists(notes3) else [])
+        if rc3 != 0:
+            raise RuntimeError("call-site inventory failed: " + o3[-2000:])
         if rc != 0:
             raise RuntimeError("translator failed: " + o[-2000:])
         if rc2 != 0:
@@ -482,6 +532,7 @@ class C24(Prop):
         for o in inl.get("ignored") or []:
             notes.append("a*b/c without a time unit / clock rate / ...Rate / ...TimeScale operand (not a timestamp scaling, left alone): "
                          "%s:%d %s" % (o["File"], o["Line"], o["Expr"]))
+        notes.extend(self.call_notes)
         for o in inl.get("others") or []:
             notes.append("single-operation scaling (not of the a*b/c form, not translated): %s:%d %s" % (o["File"], o["Line"], o["Expr"]))
         return notes
